@@ -159,13 +159,17 @@ class Raises(object):
         valid at node: no name in the fact re-bound and no mentioned list mutated in between."""
         g = self.s.cfg(f)
         out = []
+        ax = self.an.alias_expander(f) if hasattr(self.an, "alias_expander") else None
+        from .astutil import atoms_of as _atoms_of
         for test, pol, br in g.dominating_conditions(node):
             if pol not in ("true", "false"):
                 continue
-            for text, p in atoms_of(test, pol == "true"):
+            nf = (lambda e, br=br: norm(ax.expand(e, br))) if ax is not None else norm
+            for text, p in _atoms_of(test, pol == "true", nf):
                 if self._fact_still_valid(f, g, br, node, text, pol=p):
                     out.append((text, p))
         out += self._universal_loop_facts(f, g, node)
+        out += self._helper_post_facts(f, g, node)
         # dominating stores of a constant:  X.attr = None  =>  (X.attr is None) holds until X.attr is stored again
         for n in g.nodes:
             if n.kind == "stmt" and isinstance(n.ast, ast.Assign) and len(n.ast.targets) == 1 and n.id != node.id \
@@ -181,6 +185,87 @@ class Raises(object):
                 t = norm(n.ast.targets[0])
                 if self._fact_still_valid(f, g, n, node, t + " " + n.ast.value.id, stores_to=t):
                     out.append(("ALIAS %s = %s" % (t, n.ast.value.id), True))
+        return out
+
+    # ------------------------------------------------------------ post-facts of private helpers
+    def post_facts(self, h, depth=0):
+        """[(text, polarity)] facts that hold at every normal exit of the private helper h, in h's vocabulary; the name that is
+        returned is written RET.  (`if not ok(x): raise` ... `return x`  gives  ok(RET).)"""
+        cache = self.__dict__.setdefault("_post_cache", {})
+        if h.qualname in cache:
+            return cache[h.qualname]
+        cache[h.qualname] = []          # recursion guard
+        if depth > 3 or h.is_generator:
+            return []
+        g = self.s.cfg(h)
+        exits = []
+        for k, p in g.exit.pred:
+            if k == "exc" or p.kind == "raise":
+                continue
+            exits.append(p)
+        common = None
+        for p in exits:
+            facts = set(self.facts_at(h, p))
+            ret = p.ast.value if p.kind == "return" and p.ast is not None else None
+            if isinstance(ret, ast.Name):
+                facts = set((re.sub(r"(?<![\w.])%s\b" % re.escape(ret.id), "RET", t), pol) for t, pol in facts)
+            elif ret is not None and not isinstance(ret, ast.Constant):
+                facts = set((t, pol) for t, pol in facts)
+            common = facts if common is None else (common & facts)
+        out = sorted(x for x in (common or set()) if not x[0].startswith("ALIAS "))
+        cache[h.qualname] = out
+        return out
+
+    def _helper_post_facts(self, f, g, node):
+        """facts established by calls of private helpers that dominate `node` and returned normally."""
+        out = []
+        for n in g.nodes:
+            if n.id == node.id or n.kind != "stmt" or not g.dominates(n, node):
+                continue
+            st = n.ast
+            call, target = None, None
+            if isinstance(st, ast.Assign) and len(st.targets) == 1 and isinstance(st.targets[0], ast.Name) and isinstance(st.value, ast.Call):
+                call, target = st.value, st.targets[0].id
+            elif isinstance(st, ast.Expr) and isinstance(st.value, ast.Call):
+                call = st.value
+            if call is None:
+                continue
+            fn = call.func
+            name = fn.attr if isinstance(fn, ast.Attribute) else fn.id if isinstance(fn, ast.Name) else ""
+            if not name.startswith("_") or name.startswith("__"):
+                continue
+            tgts = [t for t in self.s.targets(call, f) if isinstance(t, FuncInfo)]
+            if len(tgts) != 1:
+                continue
+            h = tgts[0]
+            pf = self.post_facts(h)
+            if not pf:
+                continue
+            args = self.s.arg_exprs(call, h, f)
+            allp = h.params + h.kwonly
+            mapping = {}
+            hazard = set()
+            for i, pn in enumerate(allp):
+                if i in args:
+                    mapping[pn] = norm(args[i])
+                    if target is not None and target in names_in_text(mapping[pn]):
+                        hazard.add(pn)
+                elif pn in h.defaults:
+                    mapping[pn] = unparse(h.defaults[pn])
+            for text, pol in pf:
+                names = names_in_text(text)
+                if "RET" in names and target is None:
+                    continue
+                if any(x in hazard for x in names):
+                    continue
+                if any(x not in allp and x != "RET" and x in self.s.local_names(h) for x in names):
+                    continue         # mentions a local of the helper
+                m2 = dict(mapping)
+                if target is not None:
+                    m2["RET"] = target
+                t2 = substitute(text, m2)
+                if self._fact_still_valid(f, g, n, node, t2, pol=pol):
+                    out.append((t2, pol))
         return out
 
     def _universal_loop_facts(self, f, g, node):
@@ -663,14 +748,34 @@ class Raises(object):
                         callees.append((m, amap, self.label(f, node, recv, " " + name)))
         facts = None
         own = None
+        alts = self._alias_alternatives(f, node, a) if k in ("call", "store_attr", "load_prop") else [({}, [])]
         for tgt, args, ctext in callees:
             if tgt.is_generator and k == "call":
                 continue     # calling a generator function runs nothing; iteration does (approximated at the call's consumer)
             for site in self.summary(tgt, self.entry_facts_for(tgt, args, f, entry)):
-                lifted = self.lift(site, tgt, args, f, node, ctext)
-                if lifted is None:
+                lifted0 = self.lift(site, tgt, args, f, node, ctext)
+                if lifted0 is None:
                     continue
-                lifted.call, lifted.tgt, lifted.evkind = a, tgt, k
+                lifted0.call, lifted0.tgt, lifted0.evkind = a, tgt, k
+                lifted = lifted0
+                if alts != [({}, [])]:
+                    # the receiver / an argument is a local bound to one of several locations (children = self._sections | self._props):
+                    # the site is live iff it is live for one of the bindings, each taken with the conditions of that binding
+                    live = None
+                    for sub, extra in alts:
+                        cand = RaiseSite(lifted0.exc, lifted0.origin, [(substitute(t, sub), p) for t, p in lifted0.guards] + list(extra),
+                                         lifted0.chain, lifted0.lineno, lifted0.path, a, tgt, k)
+                        if with_discharge:
+                            if facts is None:
+                                facts = self.facts_at(f, node)
+                            if self.dead_reason(cand, tgt, args, f, node, facts + list(extra)):
+                                continue
+                        live = cand
+                        break
+                    if live is None:
+                        self.discharged.append((f.short, lifted0, "dead for every binding of the aliased list"))
+                        continue
+                    lifted = live
                 if with_discharge:
                     if facts is None:
                         facts = self.facts_at(f, node)
@@ -722,8 +827,8 @@ class Raises(object):
         head = parts[0]
         if f.params and head == f.params[0] and f.has_self:
             head = "self"
-        elif head in f.params or head in f.kwonly:
-            pass
+        elif (head in f.params or head in f.kwonly) and not (f.name.startswith("_") and not f.name.startswith("__")):
+            pass          # parameters of public functions are part of the API: keep their names
         elif head in self.s.local_names(f):
             try:
                 ks = self._kinds_of_text(head, f, node) or set()
@@ -741,6 +846,50 @@ class Raises(object):
         if k.startswith(("class:", "func:", "module:", "builtin:", "ext:", "fmt:")):
             return k.split(":", 1)[1]
         return k[4:] if k.startswith("Base") else k
+
+    def _alias_alternatives(self, f, node, a):
+        """[(substitution {local: location text}, [(atom, polarity)] conditions of that binding)] for the first local in the
+        receiver/arguments of the event that is bound (by several reaching definitions) to plain locations only."""
+        from .dataflow import reaching_defs
+        from .symtext import _is_location
+        from .astutil import atoms_of as _atoms_of
+        g = self.s.cfg(f)
+        exprs = []
+        if isinstance(a, ast.Call):
+            exprs = [a.func] + list(a.args) + [k0.value for k0 in a.keywords]
+        elif isinstance(a, ast.Attribute):
+            exprs = [a.value]
+        names = []
+        for e in exprs:
+            for y in ast.walk(e):
+                if isinstance(y, ast.Name) and y.id not in f.params and y.id in self.s.local_names(f) and y.id not in names:
+                    names.append(y.id)
+        for name in names:
+            defs = [d for d in reaching_defs(g, node, name)]
+            if len(defs) < 2 or any(d.kind != "stmt" or not isinstance(d.ast, ast.Assign) for d in defs):
+                continue
+            vals = []
+            for d in defs:
+                v = None
+                for t in d.ast.targets:
+                    if isinstance(t, ast.Name) and t.id == name:
+                        v = d.ast.value
+                    elif isinstance(t, (ast.Tuple, ast.List)) and isinstance(d.ast.value, (ast.Tuple, ast.List)) and len(t.elts) == len(d.ast.value.elts):
+                        for i, el in enumerate(t.elts):
+                            if isinstance(el, ast.Name) and el.id == name:
+                                v = d.ast.value.elts[i]
+                vals.append(v)
+            if any(v is None or not _is_location(v) for v in vals):
+                continue
+            out = []
+            for d, v in zip(defs, vals):
+                conds = []
+                for test, pol, br in g.dominating_conditions(d):
+                    if pol in ("true", "false"):
+                        conds += _atoms_of(test, pol == "true", norm)
+                out.append(({name: norm(v)}, conds))
+            return out
+        return [({}, [])]
 
     def _handler_classes_of(self, f, node):
         """exception classes of the except clause the node belongs to (for bare raise)."""
